@@ -149,6 +149,54 @@ fn mutated_extensions(g: &MlsGroup, name_byte: bool) -> Result<Extensions<GroupC
     Ok(exts)
 }
 
+fn read_vlen(b: &[u8], at: usize) -> Option<(usize, usize)> {
+    let first = *b.get(at)?;
+    match first >> 6 {
+        0 => Some(((first & 0x3f) as usize, 1)),
+        1 => Some(((((first & 0x3f) as usize) << 8) | *b.get(at + 1)? as usize, 2)),
+        2 => Some(((((first & 0x3f) as usize) << 24) | ((*b.get(at + 1)? as usize) << 16) | ((*b.get(at + 2)? as usize) << 8) | *b.get(at + 3)? as usize, 4)),
+        _ => None,
+    }
+}
+fn write_vlen(n: usize) -> Vec<u8> {
+    if n < 64 {
+        vec![n as u8]
+    } else if n < 16384 {
+        vec![0x40 | (n >> 8) as u8, n as u8]
+    } else {
+        vec![0x80 | (n >> 24) as u8, (n >> 16) as u8, (n >> 8) as u8, n as u8]
+    }
+}
+
+/// group context extensions with `pk` appended to the admin list of the Nostr group data
+fn extensions_with_admin(g: &MlsGroup, pk: &PublicKey) -> Result<Extensions<GroupContext>, String> {
+    let mut exts = g.extensions().clone();
+    let mut found = None;
+    for e in exts.iter() {
+        if let Extension::Unknown(0xF2EE, UnknownExtension(bytes)) = e {
+            found = Some(bytes.clone());
+        }
+    }
+    let b = found.ok_or("no group data extension")?;
+    // version u16 | nostr_group_id [32] | name <V> | description <V> | admin_pubkeys <V>(32 each) | ...
+    let mut at = 34;
+    for _ in 0..2 {
+        let (n, l) = read_vlen(&b, at).ok_or("bad length")?;
+        at += l + n;
+    }
+    let (n, l) = read_vlen(&b, at).ok_or("bad admin length")?;
+    if n % 32 != 0 {
+        return Err("unexpected admin list encoding".into());
+    }
+    let mut out = b[..at].to_vec();
+    out.extend(write_vlen(n + 32));
+    out.extend_from_slice(&b[at + l..at + l + n]);
+    out.extend_from_slice(&pk.to_bytes());
+    out.extend_from_slice(&b[at + l + n..]);
+    exts.add_or_replace(Extension::Unknown(0xF2EE, UnknownExtension(out))).map_err(|e| e.to_string())?;
+    Ok(exts)
+}
+
 fn publish(w: &mut World, step: &Step, node: usize, g: usize, event: Event, kind: EvKind, desc: String, result_state: Option<String>) -> EvRef {
     let pre = w.node_state(node, g);
     let (epoch, parent) = pre.unwrap_or((0, String::new()));
@@ -256,6 +304,14 @@ pub fn exec(w: &mut World, step: &Step, h: HostileOp) -> Outcome {
                             let exts = mutated_extensions(&grp, kind == 6)?;
                             grp.update_group_context_extensions(&m.provider, exts, &signer).map_err(|e| e.to_string())?.0
                         }
+                        7 => {
+                            let me = m.get_members(&gid).map_err(|e| e.to_string())?;
+                            let _ = me;
+                            let own = BasicCredential::try_from(grp.own_leaf().ok_or("no leaf")?.credential().clone()).map_err(|e| e.to_string())?;
+                            let pk = PublicKey::from_slice(own.identity()).map_err(|e| e.to_string())?;
+                            let exts = extensions_with_admin(&grp, &pk)?;
+                            grp.update_group_context_extensions(&m.provider, exts, &signer).map_err(|e| e.to_string())?.0
+                        }
                         3 => grp.self_update(&m.provider, &signer, LeafNodeParameters::default()).map_err(|e| e.to_string())?.into_commit(),
                         4 => {
                             let pk = victim_pk.ok_or("no victim")?;
@@ -297,7 +353,7 @@ pub fn exec(w: &mut World, step: &Step, h: HostileOp) -> Outcome {
             match r {
                 Ok((ev, rs)) => {
                     let admin = w.is_admin(node, g);
-                    let what = if is_commit { ["remove", "add", "groupdata_id", "selfupdate", "identity_change", "commit_pending", "groupdata_name"][kind.min(6) as usize] } else { ["prop_add", "prop_remove", "prop_groupdata"][kind.min(2) as usize] };
+                    let what = if is_commit { ["remove", "add", "groupdata_id", "selfupdate", "identity_change", "commit_pending", "groupdata_name", "groupdata_self_promotion"][kind.min(7) as usize] } else { ["prop_add", "prop_remove", "prop_groupdata"][kind.min(2) as usize] };
                     let r = publish(w, step, node, g, ev, EvKind::Hostile, format!("crafted {} {what} by n{node} admin={admin} victim=n{victim}", if is_commit { "commit" } else { "proposal" }), rs);
                     let mut out = o("ok", format!("crafted {what}"));
                     out.created = vec![r];
